@@ -1335,7 +1335,31 @@ impl SparqlDatabase {
     pub fn parse_n3(&mut self, n3_data: &str) {
         let lines: Vec<String> = n3_data.lines().map(|l| l.trim().to_string()).collect();
         let chunk_size = 1000;
-        let chunks: Vec<Vec<String>> = lines.chunks(chunk_size).map(|c| c.to_vec()).collect();
+        // A statement may span several lines (`s p o ;` continued on the next
+        // line): a chunk is only closed between two statements, never inside one,
+        // otherwise the first half is dropped and the second half is misread.
+        let mut chunks: Vec<Vec<String>> = Vec::new();
+        let mut current_chunk: Vec<String> = Vec::with_capacity(chunk_size);
+        let mut statement_open = false;
+        for raw_line in lines {
+            let mut code = raw_line.as_str();
+            if let Some(comment_start) = Self::n3_comment_start(code) {
+                code = code[..comment_start].trim();
+            }
+            if !code.is_empty() && !code.starts_with("@prefix") {
+                statement_open = !code.ends_with('.');
+            }
+            current_chunk.push(raw_line);
+            if current_chunk.len() >= chunk_size && !statement_open {
+                chunks.push(std::mem::replace(
+                    &mut current_chunk,
+                    Vec::with_capacity(chunk_size),
+                ));
+            }
+        }
+        if !current_chunk.is_empty() {
+            chunks.push(current_chunk);
+        }
 
         // Prefix declarations are document-scoped, not chunk-scoped: compute, in
         // document order, the prefix map in effect at the start of every chunk.
